@@ -85,6 +85,7 @@ def run_generic(prop, cfg, tier, seed, t0, post=None):
         "tie_cases": tie["tie_cases"] if tie else 0,
         "spec_oracle_cases": tie["oracle_cases"] if tie else 0,
         "order_only_differences": tie["order_only_differences"] if tie else 0,
+        "worlds_meeting_theorem_hypotheses": (tie.get("model_info") or {}) if tie else {},
         "oracle_failures_total": len(failures),
         "oracle_failures_known": {c: len(v) for c, v in hits.items()},
         "input_distribution": (tie["summary"]["hist"] if tie else {}),
